@@ -13,11 +13,9 @@
            Ranges / lengths are NOT in the type; they are the predicate `WF` (Lemmas.lean).
   * `enc`, `size`      `Encoder.value` / `datasizeWrite` (what `encoder.Serialize` / `encoder.Size` do).
   * `dec`              `Decoder.value` (what `encoder.DeserializeRaw` does): value + remainder, or the
-                       error kind together with `len(d.Buffer)` at the moment the error was raised (the
-                       omitempty rule of the reference decoder looks at exactly that).
-  * `decG`             the decoder that the skyencoder-GENERATED code implements: identical to `dec`
-                       except for the omitempty field (it tests `len(d.Buffer) == 0` BEFORE reading,
-                       the reference tests it AFTER a failed read).
+                       error kind together with `len(d.Buffer)` at the moment the error was raised.
+  * `decG`             = `dec` (name kept for the decoder that the skyencoder-GENERATED code implements;
+                       the two differed on a truncated omitempty field until the repair of encoder.go).
   * `decExact`, `decGExact`   + `ErrRemainingBytes`.
   * `encG`             generated `encodeX`: refuses (`ErrMaxLenExceeded`) when a maxlen-tagged field is
                        too long; otherwise the bytes of `enc`.
@@ -196,9 +194,9 @@ def readBool : Bytes → DRes Bool
   | [] => .err .underflow 0
   | b :: r => if b = 0 then .ok false r else if b = 1 then .ok true r else .err .invalidBool r.length
 
-/-- decoder parametrised by the omitempty rule (`ref = true`: reference `Decoder.value`; `false`:
-generated code). Everything else is common. -/
-def decWith (ref : Bool) : (t : Ty) → Bytes → DRes (Val t)
+/-- `Decoder.value` — what `encoder.DeserializeRaw` does, and (theorem `gen_X_refines` + `runDec_refCodec`)
+what every generated `decodeX` does. -/
+def dec : (t : Ty) → Bytes → DRes (Val t)
   | .u8, bs => readLE 1 bs
   | .u16, bs => readLE 2 bs
   | .u32, bs => readLE 4 bs
@@ -209,7 +207,7 @@ def decWith (ref : Bool) : (t : Ty) → Bytes → DRes (Val t)
   | .i64, bs => (readLE 8 bs).map (toSigned 64)
   | .bool, bs => readBool bs
   | .bytesN n, bs => readN n bs
-  | .array n t, bs => decLoop (decWith ref t) n bs []
+  | .array n t, bs => decLoop (dec t) n bs []
   | .bytes m, bs =>
     match readLen bs with
     | .err e k => .err e k
@@ -229,30 +227,24 @@ def decWith (ref : Bool) : (t : Ty) → Bytes → DRes (Val t)
     | .ok len r =>
       if len = 0 then .ok [] r
       else if m > 0 ∧ len > m then .err .maxlen r.length
-      else decLoop (decWith ref t) len r []
+      else decLoop (dec t) len r []
   | .unit, bs => .ok () bs
   | .pair a b, bs =>
-    match decWith ref a bs with
+    match dec a bs with
     | .err e k => .err e k
     | .ok x r =>
-      match decWith ref b r with
+      match dec b r with
       | .err e k => .err e k
       | .ok y r' => .ok (x, y) r'
   | .omitempty t, bs =>
-    if ref then
-      -- encoder.go: `if err := d.value(fv, maxlen); err != nil { if err == ErrMaxLenExceeded { return err };
-      --              if !omitempty || len(d.Buffer) != 0 { return err } }`   (field left at its zero value)
-      match decWith ref t bs with
-      | .ok v r => .ok v r
-      | .err e k => if e = .maxlen then .err e k else if k = 0 then .ok (zero t) [] else .err e k
-    else
-      -- generated: `if len(d.Buffer) == 0 { return consumed, nil }` before reading the field
-      if bs.isEmpty then .ok (zero t) [] else decWith ref t bs
+    -- encoder.go: `if omitempty && len(d.Buffer) == 0 { continue }` before `d.value(fv, maxlen)`;
+    -- generated: `if len(d.Buffer) == 0 { return consumed, nil }` before reading the field.
+    -- (Until the repair 693ca3325 the reference tested the buffer AFTER a failed read and so accepted a
+    -- truncated field such as a bare non-zero length prefix; see known_findings.json "fixed".)
+    if bs.isEmpty then .ok (zero t) [] else dec t bs
 
-/-- reference decoder: `Decoder.value` / `encoder.DeserializeRaw`. -/
-abbrev dec := decWith true
-/-- the decoder implemented by generated `decodeX`. -/
-abbrev decG := decWith false
+/-- the decoder implemented by generated `decodeX` — the same function (kept as a name of the API). -/
+abbrev decG := dec
 
 def exact {α} : DRes α → Except DecErr α
   | .err e _ => .error e
